@@ -41,10 +41,13 @@ THEOREMS = [
     'C20_json_rejects_leading_zero',
     'C20_json_rejects_trailing',
     'C20_json_ws_exact',
+    'C20_json_string_roundtrip',
     'C20_json_nonvacuous',
     'C20_bash_unescape_escape',
     'C20_xml_escape_no_specials',
     'C20_dollars_doubling',
+    'C20_parse_escape_json',
+    'C20_escape_json_0x19_refuted',
     'C20_esc_nonvacuous',
 ]
 # real-number axioms of Coq's standard library, reached through Flocq (shr_truncate, binary_normalize_correct)
@@ -1065,6 +1068,8 @@ def check(run):
         c0_hi = read_c0_hi(vlib.REPO)
         run.add_obligation('T:escape_string_json C0 range read from manifest.rs', True)
         run.extra['escape_json_c0_hi'] = c0_hi
+        run.add_obligation('T:escape_string_json escapes exactly U+0000..U+001F (the range C20_parse_escape_json is stated for)',
+                           c0_hi == 0x1f, 'the source escapes up to U+%04X' % c0_hi)
     except Exception as e:
         run.add_obligation('T:escape_string_json C0 range read from manifest.rs', False, str(e))
         c0_hi = 0x1f
